@@ -85,6 +85,11 @@ def side_conditions(es):
             for i, a in enumerate(apps):
                 for b in apps[i + 1:]:
                     lemmas.append(z3.Implies(a.arg(0) == -b.arg(0), a == sign * b))
+    # values at 0 (a self-coupling y - y reaches them)
+    for fname, v0 in (('sin', 0), ('tan', 0), ('tanh', 0), ('sinh', 0), ('arctan', 0), ('arcsin', 0), ('cos', 1),
+                      ('cosh', 1), ('exp', 1)):
+        for t in uf_apps.get(fname, []):
+            lemmas.append(z3.Implies(t.arg(0) == 0, t == v0))
     for t in uf_apps.get('tanh', []):
         lemmas.append(z3.And(t > -1, t < 1))
     for t in uf_apps.get('cosh', []):
